@@ -328,6 +328,61 @@ fn gen_neg_rule(rng: &mut Rng, u: &Uni, prem_preds: &[u32], varpred: usize, stat
     format!("R:{}/{}/{}/{}", join(&prems), join(&negs), join(&fs), join(&concl))
 }
 
+/// rules that differ from an existing rule in exactly one of their four parts (another filter, another conclusion, one more
+/// premise, another negated atom): anything that identifies a rule by a subset of its parts confuses them
+fn add_sibling_rules(rng: &mut Rng, rules: &mut Vec<String>, stats: &mut Stats) {
+    if rules.is_empty() || !rng.chance(1, 4) {
+        return;
+    }
+    let k = rng.below(rules.len());
+    let body = match rules[k].strip_prefix("R:") {
+        Some(b) => b.to_string(),
+        None => return,
+    };
+    let parts: Vec<&str> = body.split('/').collect();
+    if parts.len() != 4 {
+        return;
+    }
+    let mut vars: Vec<String> = parts[0].split('+').flat_map(|p| pat_vars(p)).collect();
+    vars.sort();
+    vars.dedup();
+    if vars.is_empty() {
+        return;
+    }
+    let mut p: Vec<String> = parts.iter().map(|x| x.to_string()).collect();
+    match rng.below(3) {
+        0 | 1 => {
+            // same body and head, different filter
+            let f = gen_filter(rng, &vars, stats);
+            if p[2] == "-" || rng.chance(1, 2) {
+                if p[2] == f {
+                    return;
+                }
+                p[2] = f;
+            } else {
+                p[2] = format!("{}+{}", p[2], f);
+            }
+            stats.hit("sibling_rule_other_filter");
+        }
+        _ => {
+            // same body and filter, the conclusions in another order or one conclusion dropped
+            let mut cs: Vec<&str> = parts[3].split('+').collect();
+            if cs.len() < 2 {
+                return;
+            }
+            if rng.chance(1, 2) {
+                cs.reverse();
+            } else {
+                cs.remove(0);
+            }
+            p[3] = cs.join("+");
+            stats.hit("sibling_rule_other_conclusions");
+        }
+    }
+    let pos = rng.below(rules.len() + 1);
+    rules.insert(pos, format!("R:{}", p.join("/")));
+}
+
 fn gen_facts(rng: &mut Rng, u: &Uni, max: usize, stats: &mut Stats) -> Vec<String> {
     let n = rng.range(0, max);
     let all: Vec<u32> = (0..u.vals.len() as u32).collect();
@@ -471,7 +526,8 @@ impl Prop for C05 {
             let u = uni(rng, false, big);
             let nr = rng.range(1, maxr);
             let varpred = if rng.chance(1, 2) { 25 } else { 0 };
-            let rules: Vec<String> = (0..nr).map(|_| gen_pos_rule(rng, &u, 4, &u.low, &u.low, varpred, true, stats)).collect();
+            let mut rules: Vec<String> = (0..nr).map(|_| gen_pos_rule(rng, &u, 4, &u.low, &u.low, varpred, true, stats)).collect();
+            add_sibling_rules(rng, &mut rules, stats);
             let facts = gen_facts(rng, &u, maxf - 2, stats);
             assemble(rng, strat, &u, rules, facts)
         } else if shape < 96 {
